@@ -1,6 +1,9 @@
 import Py4hwV.Drv.Proto
 import Py4hwV.Schem.Checker
 import Py4hwV.Schem.Place
+import Py4hwV.Schem.Column
+import Py4hwV.Schem.Track
+import Py4hwV.Schem.Pass
 /- C18 driver: runs the verified layout checker `Schem.check` on exported designs / layouts.
    request:  chk | insIns | insOuts | inp | outp | syms | mat | nets
                insIns/insOuts/mat : ';'-separated int lists, each with a leading dummy 0 (so that empty lists survive)
@@ -8,7 +11,16 @@ import Py4hwV.Schem.Place
                net  : wire,src,sp,snk,tp,x0,y0,x1,y1,…      negative wire/src/snk = unknown (mapped out of range), negative port = none
    answer:   <premise 0/1> | <number of errors> | err;err;…          (err = symCount:inst:3, wire:5:foreignPin, …)
    request:  place | GRID_SIZE,CELL_MARGIN_VERTICAL,CELL_MARGIN_HORIZONTAL,NET_SPACING,NET_TRACK_SPACING | tracks | rows of w:h cells (';' rows, ',' cells, '_' = empty cell)
-   answer:   xs | ys          (column x and row y computed by the model of replaceAsColRow) -/
+   answer:   xs | ys          (column x and row y computed by the model of replaceAsColRow)
+   request:  col | insIns | insOuts | inp | outp
+   answer:   levels of the children | symbol_matrix computed by the model of columnAssignment (rows ';', -1 = empty)
+   request:  trk | number of columns | nets as wire,srcRow,srcCol,snkRow (';' separated)
+   answer:   track of every net (-1 = none) | tracks handed out per column            (model of trackAssignment)
+   request:  rt | consts | nets as kind,p0x,p0y,pfx,pfy,srcX,sourcewidth,track  (kind 0 FeedbackStop source, 1 FeedbackStart sink, 2 plain)
+   answer:   polylines x0,y0,x1,y1,… (';' separated)                                   (model of routeNetSquare)
+   request:  pt | insIns | insOuts | inp | outp | sinkOrd (S,T1,T2,… ';' separated) | wireOrd (S,T,w1,w2,… ';' separated)
+   answer:   ok / err:<which> | orders are permutations 0/1 | nets of createNets | markers (0 pass 1 fbStart 2 fbStop) | matrix | nets
+             (nets as wire,src,sp,snk,tp with -1 = None)                  (models of createNets and passthroughCreation) -/
 open Proto Schem
 
 def nat! (i : Int) : Nat := i.toNat
@@ -84,6 +96,53 @@ def handle (line : String) : String :=
                         nets := (parseLists nets).map (parseNet ss.length nw) }
     let es := check d L
     s!"{showBool d.wellDrivenB} | {es.length} | {";".intercalate ((es.take 40).map showErr)}"
+  | ["col", ii, io, inp, outp] =>
+    let ins := dropLead (parseLists ii)
+    let outs := dropLead (parseLists io)
+    let d : Design := { insts := (ins.zip outs).map fun (a, b) => { ins := a.map nat!, outs := b.map nat! },
+                        inp := (parseInts inp).map nat!, outp := (parseInts outp).map nat! }
+    let lv : List Int := (Column.levelList d).map fun l => Int.ofNat l
+    let m := (Column.colMatrixFast d).map fun row => row.map fun o => match o with | some k => (k : Int) | none => -1
+    s!"{showInts lv} | {showLists m}"
+  | ["pt", ii, io, inp, outp, so, wo] =>
+    let ins := dropLead (parseLists ii)
+    let outs := dropLead (parseLists io)
+    let d : Design := { insts := (ins.zip outs).map fun (a, b) => { ins := a.map nat!, outs := b.map nat! },
+                        inp := (parseInts inp).map nat!, outp := (parseInts outp).map nat! }
+    let sinkOrd : List (Nat × List Nat) := (parseLists so).filterMap fun l => match l with
+      | S :: ts => some (S.toNat, ts.map nat!) | [] => none
+    let wireOrd : List ((Nat × Nat) × List Nat) := (parseLists wo).filterMap fun l => match l with
+      | S :: T :: ws => some ((S.toNat, T.toNat), ws.map nat!) | _ => none
+    let showNet (n : Pass.PNet) : List Int :=
+      [(n.wire : Int), n.src, match n.sp with | some p => (p : Int) | none => -1, n.snk, match n.tp with | some p => (p : Int) | none => -1]
+    let n0 := match Pass.createNets d with | .ok ns => showLists (ns.map showNet) | .error _ => "err"
+    let okk := showBool (Pass.ordersOk d sinkOrd wireOrd)
+    match Pass.passthroughCreationOn d (Column.colMatrixFast d) sinkOrd wireOrd with
+    | .ok st =>
+      let mk := st.marks.map fun k => match k with | .pass => (0 : Int) | .fbStart => 1 | .fbStop => 2
+      let m := st.mat.map fun row => row.map fun o => match o with | some k => (k : Int) | none => -1
+      s!"ok | {okk} | {n0} | {showInts mk} | {showLists m} | {showLists (st.nets.map showNet)}"
+    | .error e =>
+      let nm := match e with | .noSource => "noSource" | .notInRemove => "notInRemove" | .multiple => "multiple"
+                             | .assertSinkcol => "assertSinkcol" | .noPos => "noPos"
+      s!"err:{nm} | {okk} | {n0} | | | "
+  | ["trk", ncs, nets] =>
+    let ns : List Track.TNet := (parseLists nets).filterMap fun l => match l with
+      | [w, sr, sc, tr] => some { wire := w.toNat, sr := sr.toNat, sc := sc.toNat, tr := tr.toNat }
+      | _ => none
+    let ts := (List.range ns.length).map fun i => match Track.trackOf ns i with | some t => (t : Int) | none => -1
+    let cs := (List.range ((parseInts ncs).headD 0).toNat).map fun c => (Track.tracksOfColumn ns c : Int)
+    s!"{showInts ts} | {showInts cs}"
+  | ["rt", cf, nets] =>
+    let cfg : Place.Cfg := match parseInts cf with
+      | [gs, mv, mh, ns, ts] => { gs := gs, mv := mv, mh := mh, ns := ns, ts := ts }
+      | _ => Place.Cfg.std
+    let ps := (parseLists nets).map fun l => match l with
+      | [k, p0x, p0y, pfx, pfy, sx, sw, t] =>
+        let kind := if k == 0 then Track.RKind.stopSource else if k == 1 then Track.RKind.startSink else Track.RKind.plain
+        (Track.route cfg kind (p0x, p0y) (pfx, pfy) sx sw t.toNat).flatMap fun p => [p.1, p.2]
+      | _ => []
+    showLists ps
   | ["place", cf, tr, cells] =>
     let cfg : Place.Cfg := match parseInts cf with
       | [gs, mv, mh, ns, ts] => { gs := gs, mv := mv, mh := mh, ns := ns, ts := ts }
